@@ -476,7 +476,7 @@ func replayMode(h *detx.History, mode, backend, dir string, rseed int64) ([]stri
 				n.serve(b, next, rng)
 			}
 		}
-		o := n.c.RunBlock(b)
+		o := runBlock(n.c, b)
 		lines = append(lines, blockLine(n.c, o))
 	}
 	return lines, n.stats, nil
